@@ -104,7 +104,7 @@ func genTerm(t *rapid.T) termCase {
 			}
 		}
 	}
-	causes := []string{"cancel", "disconnect", "mqclose", "badsn", "badmq"}
+	causes := []string{"cancel", "disconnect", "mqclose", "badsn", "badmq", "sneof"}
 	if c.Prefix == "fresh" || c.Prefix == "midconnect" {
 		causes = append(causes, "illegal")
 	}
@@ -140,6 +140,8 @@ func genTerm(t *rapid.T) termCase {
 		add(gwgen.SN(gwgen.Disconnect(0)))
 	case "mqclose":
 		add(gwgen.MQClose())
+	case "sneof":
+		add(gwsim.Step{K: "snclose"})
 	case "badsn":
 		raw := rapid.SampledFrom([][]byte{{0x02, 0xfe}, {0x03, 0x05}, {0x05, 0x0c, 0x00, 0x00, 0x00}, {0x01}, {}}).Draw(t, "badsn")
 		add(gwsim.Step{K: "snraw", Raw: raw})
@@ -165,7 +167,7 @@ func causeEvent(tr *gwsim.Trace, step int) (int, *gwsim.Event) {
 func TestC13(t *testing.T) {
 	vf.Check(t, vf.Prop[termCase]{
 		ID: "C13", Name: "clean-termination", Bubble: true, DeadlockIsViolation: true,
-		Rule: "a session prefix (fresh / mid connect exchange with the broker silent or WILL*/AUTH outstanding / active with 0-4 operations some left pending: unacknowledged client QoS 1 publish, unacknowledged broker QoS 1/2 publish, unacknowledged gateway REGISTER / asleep without and with a running sleep pinger (sleep durations with a zero low or high byte included) / asleep and announcing a new sleep duration / after a wake-up / reconnected after a wake-up) followed, after a drawn pause around the poll interval, by one termination cause: gateway shutdown, client plain DISCONNECT, broker closing the connection, undecodable datagram, illegal packet while disconnected, undecodable MQTT bytes; for the causes which need no datagram the client is, in a fifth of the cases, unreachable by then (writes to it fail); in a quarter of the active prefixes the broker has stopped reading and a write to it is pending; after a third of the gateway shutdowns the client answers the farewell DISCONNECT with a plain DISCONNECT of its own 1-99 ms later. Non-trivial = cause other than a clean DISCONNECT of an idle active session, or pending exchanges/pinger at the cause; distinct by (prefix, cause, pending, script).",
+		Rule: "a session prefix (fresh / mid connect exchange with the broker silent or WILL*/AUTH outstanding / active with 0-4 operations some left pending: unacknowledged client QoS 1 publish, unacknowledged broker QoS 1/2 publish, unacknowledged gateway REGISTER / asleep without and with a running sleep pinger (sleep durations with a zero low or high byte included) / asleep and announcing a new sleep duration / after a wake-up / reconnected after a wake-up) followed, after a drawn pause around the poll interval, by one termination cause: gateway shutdown, client plain DISCONNECT, broker closing the connection, undecodable datagram, the client's transport closed by the peer (EOF, as after a DTLS close_notify), illegal packet while disconnected, undecodable MQTT bytes; for the causes which need no datagram the client is, in a fifth of the cases, unreachable by then (writes to it fail); in a quarter of the active prefixes the broker has stopped reading and a write to it is pending; after a third of the gateway shutdowns the client answers the farewell DISCONNECT with a plain DISCONNECT of its own 1-99 ms later. Non-trivial = cause other than a clean DISCONNECT of an idle active session, or pending exchanges/pinger at the cause; distinct by (prefix, cause, pending, script).",
 		Assumptions: []string{"bound: run returns within 100 ms (poll interval) + 1 ms of the cause on the virtual clock; sends are instantaneous on the in-memory links",
 			"the DISCONNECT-count clause is asserted in model states on which specification and implementation cannot disagree (never connected, active, asleep before the first wake-up); after a wake-up only termination, close and the goroutine census are asserted",
 			"the 'broker unreachable' cause needs a real dial and is checked by the separate part dial-failure"},
